@@ -82,18 +82,36 @@ class Schema:
         self.meta: dict = {}  # ClassInfo.fq -> MetaInfo (own literal only)
         self.problems: list = []  # (message, mod, node) — structural invariants that failed
         self.patch_stmts: list = []
-        self.suit_key = self.keys_mod.classes.get("suit_key")
-        if self.suit_key is None:
-            raise AnalysisError("anchor suit_key vanished")
+        self.suit_key = repo.cls(KEYS, "suit_key")  # follows a move into another module that is imported back
         for n in GENERIC_KINDS:
             if n not in self.common.classes:
                 raise AnalysisError(f"anchor generic class {COMMON}:{n} vanished")
         self._build()
 
     # ------------------------------------------------------------------ parsing
+    def group_attr(self) -> str:
+        """The class-level setting of the generic list node that says how many consecutive items form one entry - by role when it
+        is no longer called _group: the one private integer class attribute of SuitList."""
+        sl = self.common.classes.get("SuitList")
+        if sl is None or "_group" in sl.attrs:
+            return "_group"
+        # the setting is what the list code slices its items by: <name> appears as the step of range(...) / in a slice bound
+        used = set()
+        for f in sl.methods.values():
+            for n in ast.walk(f.node):
+                if isinstance(n, ast.Call) and isinstance(n.func, ast.Name) and n.func.id == "range" and len(n.args) == 3:
+                    used |= {x.attr for x in ast.walk(n.args[2]) if isinstance(x, ast.Attribute) and x.attr in sl.attrs}
+        return next(iter(used)) if len(used) == 1 else "_group"
+
     def is_key_class(self, ci: ClassInfo) -> bool:
         """A vocabulary key: a class in keys.py carrying ``name`` (and usually ``id``)."""
-        return ci.module is self.keys_mod and ci is not self.suit_key and "name" in ci.attrs
+        if ci is self.suit_key or "name" not in ci.attrs:
+            return False
+        if ci.module is self.keys_mod:
+            return True
+        # defined in another module and imported into keys.py under its name (the vocabulary split over several files)
+        imp = self.keys_mod.imports.get(ci.name)
+        return bool(imp) and imp[1] == ci.name and imp[0] == ci.module.name
 
     def key_ref(self, ci: ClassInfo, node=None) -> KeyRef:
         def val(attr):
@@ -513,7 +531,7 @@ class Schema:
                 return {"t": "array", "items": items, "hint": hint}
             if kind == "list":
                 ch = [c for c in (mi.children or []) if isinstance(c, TypeRef)]
-                return {"t": "list", "of": tid(ch[0]) if ch else None, "group": self.class_const(ci, "_group"),
+                return {"t": "list", "of": tid(ch[0]) if ch else None, "group": self.class_const(ci, self.group_attr()),
                         "hint": hint}
             if kind == "union":
                 return {"t": "union", "alts": [tid(c) for c in mi.children or [] if isinstance(c, TypeRef)],
